@@ -90,6 +90,15 @@ pub broadcast group group_runtime_error {
     axiom_spec_from_runtime_error,
 }
 
+/// mirror of runtime/src/runtime/error.rs::OrNumberError (the impl for Option<T> is extracted)
+pub trait OrNumberError<T, Source: 'static + std::error::Error>: Sized {
+    spec fn as_option(self) -> Option<T>;
+    fn or_num_err(self) -> (r: Result<T, RuntimeError<Source>>)
+        ensures
+            self.as_option() matches Some(v) ==> r == Ok::<T, RuntimeError<Source>>(v),
+            self.as_option() is None ==> (r matches Err(e) && e.code() == ErrorType::Unknown && !e.from_data());
+}
+
 /// stands for every `format!(…)` in the extracted text (rule R2)
 #[verifier::external_body]
 pub fn verif_msg() -> String { unimplemented!() }
@@ -691,6 +700,9 @@ pub trait GarnishData: Sized {
     /// Number order / equality as the data object's PartialOrd / PartialEq implement them
     spec fn num_cmp(a: Self::Number, b: Self::Number) -> Option<Ordering>;
     spec fn num_eq(a: Self::Number, b: Self::Number) -> bool;
+    spec fn num_zero() -> Self::Number;
+    spec fn num_one() -> Self::Number;
+    spec fn num_max() -> Self::Number;
     spec fn chr_cmp(a: Self::Char, b: Self::Char) -> Option<Ordering>;
     spec fn byt_cmp(a: Self::Byte, b: Self::Byte) -> Option<Ordering>;
 
@@ -743,8 +755,11 @@ pub trait GarnishData: Sized {
             forall|a: Self::Byte, b: Self::Byte| #![auto] call_requires(<Self::Byte as PartialOrd>::partial_cmp, (&a, &b)),
             forall|a: Self::Byte, b: Self::Byte, c: Option<Ordering>| #![auto] call_ensures(<Self::Byte as PartialOrd>::partial_cmp, (&a, &b), c) ==> c == Self::byt_cmp(a, b),
             // Number constants / conversions as indices
-            forall|c: Self::Number| #![auto] call_ensures(<Self::Number as TypeConstants>::zero, (), c) ==> Self::nidx(c) == 0,
-            forall|c: Self::Number| #![auto] call_ensures(<Self::Number as TypeConstants>::one, (), c) ==> Self::nidx(c) == 1,
+            forall|c: Self::Number| #![auto] call_ensures(<Self::Number as TypeConstants>::zero, (), c) ==> c == Self::num_zero(),
+            forall|c: Self::Number| #![auto] call_ensures(<Self::Number as TypeConstants>::one, (), c) ==> c == Self::num_one(),
+            forall|c: Self::Number| #![auto] call_ensures(<Self::Number as TypeConstants>::max_value, (), c) ==> c == Self::num_max(),
+            Self::nidx(Self::num_zero()) == 0,
+            Self::nidx(Self::num_one()) == 1,
             forall|s: Self::Size| #![auto] Self::nidx(<Self::DataFactory as GarnishDataFactory<Self::Size, Self::Number, Self::Char, Self::Byte, Self::Symbol, Self::Error, Self::SizeIterator, Self::NumberIterator>>::size_to_number_spec(s)) == Self::sv(s),
     ;
 }
